@@ -1101,6 +1101,13 @@ class TLSConnection(TLSRecordLayer):
                 else:
                     break
 
+            # server can ask for a retry only once
+            if result.random == TLS_1_3_HRR:
+                for result in self._sendError(
+                        AlertDescription.unexpected_message,
+                        "Received second HelloRetryRequest"):
+                    yield result
+
         serverHello = result
 
         # Get the server version.  Do this before anything else, so any
